@@ -8,6 +8,16 @@ same choices and must show, step by step, the same pending operation and enabled
 thread (bisimulation along the schedule), the same outcome (done / deadlock), the same log of
 the control script and the same final observables.  Schedules are enumerated from the real
 code: all schedules with a bounded number of pre-emptions (CHESS style, by re-execution).
+
+Fine-grained cases (entry "fine"): the played objects are scheduler-aware iterables (`Hooked`):
+every pull of a sample is one more yield point (`it<k>.pull`), so a pre-emption can fall in the
+middle of the assembly of a chunk — where concurrent players would interfere through anything
+shared (chunk buffers, module-level state, the played iterables themselves, the backend).  2–3
+players x both chunking strategies (`chunks.default = chunks.struct` / `chunks.array`, restored
+after each run) x equal / different chunk sizes and sample formats x own / shared (`the same list
+object`, `Stream.copy()` copies, one `thub` object) / raising iterables.  The Lean side replays
+the fine-grained transition system `ALV/Model/C17Fine.lean` (one `pull` step per sample, chunk
+buffer per player), proved to refine the coarse one (`fine_refines`).
 """
 import os
 import struct
@@ -24,19 +34,40 @@ RULE = ("every schedule with <= B pre-emptions (one player: B=2 quick, 3 thoroug
         "2 thorough; each enumeration capped, see harness/props/c17.py:generate) of "
         "each control history x wait in {T,F} x chunk counts, plus random walks over schedules; distinct = distinct "
         "(script, wait, cs, executed schedule); non-trivial = at least one player thread ran and at least one "
-        "context switch between two unfinished threads happened")
+        "context switch between two unfinished threads happened.  Fine-grained families (every pull from a played "
+        "iterable is a yield point; harness/props/c17.py:FINE_FAMILIES x {chunks.struct, chunks.array} x wait in {T,F}): "
+        "every schedule with <= 2 pre-emptions taken inside chunk assembly (pre-empted thread pulling or about to "
+        "write; thorough: <= 3) plus <= 1 pre-emption anywhere (thorough: <= 2) for two players with equal / "
+        "different chunk sizes, formats, lengths, control calls, the same list object played twice, Stream.copy() "
+        "copies, one thub object, iterables that raise; three players <= 1 (thorough 2) pre-emptions in assembly; "
+        "random walks over random 2-3 player configurations")
 TRUSTED = [
     "hand-written Lean transition system ALV/Model/C17.lean of AudioIO.play/close/thread_finished and "
     "AudioThread.run/stop/pause/play (modelled, not verified); atomicity = one threading/backend operation plus the "
     "local code up to the next one; the variant of stop() (Cfg.fixed) is probed from the source under test — on the "
     "repaired source the liveness theorems that apply are the ones with cfg.fixed = true",
+    "fine-grained cases: hand-written ALV/Model/C17Fine.lean (chunk assembly: one pull per step, buffer per player; "
+    "both chunking strategies have this shape) tied step by step; proved to refine the coarse system when no iterable "
+    "raises (fine_refines); played objects are wrapped in props/c17.py:Hooked (a yield point before each item is handed "
+    "over; the wrapped object itself — list, Stream.copy() copy, thub copy — is advanced atomically); which variant of "
+    "`run` (exception leaves the loop with / without the epilogue: FCfg.dieFixed) is probed from the source under test",
     "harness/sched.py (deterministic scheduler in place of `threading`) and harness/fakeaudio.py (fake pyaudio/_portaudio "
     "with the PortAudio stream protocol); CPython `threading` semantics assumed, attribute reads/writes between two "
     "yield points are taken as atomic (GIL)",
 ]
 ASSUMPTIONS = [
     "one control thread issues play/pause/play/stop/join/close; players are AudioThread objects created by AudioIO.play",
-    "audio iterables are finite lists, dfmt='f', nchannels=1, no recording streams, api=None",
+    "audio iterables are finite (lists, generators over lists, Stream.copy() / thub copies of a finite Stream, "
+    "possibly raising after their samples), samples and the float zero padding packable in the sample format (dfmt 'f'; "
+    "'i'/'h' only with whole chunks), nchannels=1, no recording streams (the property is about playback), api=None",
+    "fine-grained system (Lean, all schedules, any number of players, per-player chunk sizes): "
+    "fine_assembly_own_samples (every configuration, raising iterables included: stream ++ buffer ++ unpulled = the "
+    "player's own audio, buffer <= cs, chunks of exactly cs samples); when no iterable raises: fine_refines (a fine step "
+    "is a coarse step or a pull), fine_delivered_prefix/complete, fine_safety, fine_terminal_iff, fine_rank_decreases, "
+    "fine_steps_bounded, fine_maximal_run_exists, fine_shutdown, fine_wait_close_delivers_all; raising iterables: "
+    "die_close_spins (code as it is: close loops for ever over the dead thread, known finding D21), "
+    "die_fixed_close_returns (with try/finally); general shutdown with raising iterables + repair is PENDING "
+    "(fine_shutdown_with_raising_iterables_PENDING)",
     "liveness is proved for maximal runs of the model WITHOUT a fairness assumption: every step of every thread "
     "decreases a ranking function (theorem rank_decreases), so every schedule is finite (steps_bounded, bound "
     "1 + sum over calls: play 27+8*chunks, pause/play/stop 4, join 2, close 12) and can be continued to a terminal "
@@ -61,11 +92,15 @@ MANIFEST = {
             "any number of players, chunk counts and control scripts: safety (delivery, terminate once, closed after close, "
             "backend protocol, lock order) AND liveness (every run is finite by a ranking function; close returns and "
             "everything is shut: shutdown_fixed, shutdown_no_pause, shutdown_wait; every terminal state characterised: "
-            "terminal_states); tied to /repo by a step-by-step bisimulation check of the unmodified lazy_io.py source "
-            "under a deterministic scheduler on every check",
+            "terminal_states); the same for the fine-grained system in which every pull of a sample from a played iterable "
+            "is a step (refinement fine_refines + chunk-assembly invariant fine_assembly_own_samples + fine_shutdown); tied "
+            "to /repo by a step-by-step bisimulation check of the unmodified lazy_io.py source under a deterministic "
+            "scheduler on every check, with scheduler-aware played iterables, both chunking strategies, 1..3 players",
     "note": "Trusted: Lean kernel, axioms propext/Classical.choice/Quot.sound, harness/sched.py + harness/fakeaudio.py "
             "(CPython threading semantics assumed); the model is hand written and validated against the code step by "
-            "step along every explored schedule, not extracted from it.  No liveness statement is left PENDING; the "
+            "step along every explored schedule, not extracted from it.  PENDING: shutdown in general for played "
+            "iterables that raise, with the proposed repair of run (fine_shutdown_with_raising_iterables_PENDING; the "
+            "delivery invariant is proved for them, the livelock of the code as it is is proved: die_close_spins, D21).  The "
             "wait=True-with-a-paused-player deadlock (D10b) is a known finding excluded by an explicit hypothesis.",
     "technique": "interleaving transition system in Lean 4 with inductive invariants over all schedules and a ranking "
                  "function for termination; step-by-step bisimulation against the real code under a deterministic scheduler",
@@ -74,6 +109,7 @@ MANIFEST = {
 BUDGET = 300
 _mod = None
 _variant = None
+_die_variant = None
 _obs_cache = {}          # key -> observation (filled by the exploration and by impl)
 _chosen = {}             # key -> executed schedule (needed by request)
 
@@ -89,6 +125,47 @@ def lazy_io():
 def samples(m, n):
     """audio of the m-th play call of a script: n small integers (exact in float32)"""
     return [100 * (m + 1) + j for j in range(1, n + 1)]
+
+
+def is_fine(c):
+    return c.get("entry") == "fine"
+
+
+def play_opts(c, cmd):
+    """(chunk size, sample format, source, raises) of one play command.  Source = None: a list of its
+    own; [how, g]: source g of the case ("list" = the SAME object played by every such call, "tee" =
+    a Stream.copy() of one Stream, "thub" = one thub(...) object asked for a copy by each player)."""
+    o = cmd[2] if len(cmd) > 2 else {}
+    return o.get("cs", c["cs"]), o.get("dfmt", "f"), o.get("src"), bool(o.get("fail"))
+
+
+def audio_of(c, m, cmd):
+    """the samples the m-th play call of the script hands to the device"""
+    src = play_opts(c, cmd)[2]
+    if src is None:
+        return samples(m, cmd[1])
+    return samples(20 + src[1], c["sources"][src[1]])
+
+
+FAIL_MSG = "played iterable raises"
+FMT_SIZE = {"f": 4, "h": 2, "i": 4}     # formats AudioThread knows (_STRUCT2PYAUDIO); "b"/"B" too narrow
+
+
+class Hooked(object):
+    """Scheduler-aware iterable: every item asked of it is a yield point (`it<k>.pull`, k = the
+    asking player), so a pre-emption can fall in the middle of the assembly of a chunk.  The end of
+    the iteration is not a yield point; an iterable made to fail raises at one more pull."""
+
+    def __init__(self, obj, owner, fail=False):
+        self.obj, self.owner, self.fail = obj, owner, fail
+
+    def __iter__(self):
+        for x in self.obj:
+            sched.iter_point(self.owner)
+            yield x
+        if self.fail:
+            sched.iter_point(self.owner)
+            raise ValueError(FAIL_MSG)
 
 
 def full_script(c):
@@ -151,15 +228,29 @@ def pend_str(pend):
     return ",".join("%d:%s:%d" % (t, l, 1 if e else 0) for t, l, e in pend)
 
 
-def decode(data, cs):
+def decode(data, cs, dfmt="f"):
     try:
-        vals = struct.unpack("%df" % cs, data)
+        vals = struct.unpack("%d%s" % (cs, dfmt), data)
     except struct.error:
         return ["bad-length:%d" % len(data)]
     out = []
     for v in vals:
         f = Fraction(v)
         out.append(int(f) if f.denominator == 1 else str(f))
+    return out
+
+
+def _left_behind(trace):
+    out = []
+    prev = None
+    for ch, p in trace:
+        if ch is None:
+            break
+        x = None
+        if prev is not None and prev != ch:
+            x = next(("%s:%d" % (l, 1 if e else 0) for t, l, e in p if t == prev), "")
+        out.append(x)
+        prev = ch
     return out
 
 
@@ -171,8 +262,9 @@ def run_case(c, pinned=False):
     mod = lazy_io()
     be = fakeaudio.new_backend()
     script = c["script"]
-    wait, cs = bool(c["wait"]), c["cs"]
-    ctx = {"io": None, "ths": [], "log": []}
+    wait = bool(c["wait"])
+    fine = is_fine(c)
+    ctx = {"io": None, "ths": [], "log": [], "started": []}
 
     def namer(obj):
         io = ctx["io"]
@@ -192,6 +284,31 @@ def run_case(c, pinned=False):
     S = sched.Scheduler(c.get("schedule", ()), BUDGET, namer)
     be.owner = S
 
+    # the played objects (built outside the scheduled world: no yield point)
+    shared = {}
+    if fine:
+        import audiolazy
+        uses = {}
+        for cmd in script:
+            if cmd[0] == "play" and play_opts(c, cmd)[2] is not None:
+                how, g = play_opts(c, cmd)[2]
+                uses[g] = uses.get(g, 0) + 1
+        for g, n in enumerate(c.get("sources", [])):
+            data = samples(20 + g, n)
+            shared[g] = {"list": Hooked(list(data), S), "tee": audiolazy.Stream(list(data)),
+                         "thub": Hooked(audiolazy.thub(audiolazy.Stream(list(data)), max(uses.get(g, 0), 1)), S)}
+
+    def played_object(m, cmd):
+        cs, dfmt, src, fail = play_opts(c, cmd)
+        if not fine:
+            return samples(m, cmd[1])
+        if src is None:
+            return Hooked(samples(m, cmd[1]), S, fail)
+        how, g = src
+        if how == "tee":
+            return Hooked(shared[g]["tee"].copy(), S, fail)
+        return shared[g][how]
+
     def snapshot(io):
         return [[bool(th._alive_now()) for th in S.thread_objs], len(io._pa._streams)]
 
@@ -203,7 +320,17 @@ def run_case(c, pinned=False):
                 if op == "play":
                     m = nplay
                     nplay += 1
-                    th = io.play(samples(m, cmd[1]), chunk_size=cs)
+                    cs, dfmt, src, fail = play_opts(c, cmd)
+                    kw = {"chunk_size": cs}
+                    if dfmt != "f":
+                        kw["dfmt"] = dfmt
+                    obj = played_object(m, cmd)
+                    ctx["started"].append({"m": m, "cs": cs, "dfmt": dfmt, "fail": fail})
+                    try:
+                        th = io.play(obj, **kw)
+                    except Exception:
+                        ctx["started"].pop()
+                        raise
                     ctx["ths"].append(th)
                     ctx["log"].append(["play", "ok"])
                 elif op == "close":
@@ -239,11 +366,16 @@ def run_case(c, pinned=False):
 
     def capture():
         io = ctx["io"]
+        sts = []
+        for k, st in enumerate(be.streams):
+            info = ctx["started"][k] if k < len(ctx["started"]) else {"m": None, "cs": c["cs"], "dfmt": "f", "fail": False}
+            sts.append({"written": [decode(d, info["cs"], info["dfmt"]) for d, _n in st.writes],
+                        "nframes": sorted({n for _d, n in st.writes}),
+                        "state": st.state, "m": info["m"], "cs": info["cs"], "dfmt": info["dfmt"],
+                        "fail": info["fail"]})
         obs.update({
             "log": [list(e) for e in ctx["log"]],
-            "streams": [{"written": [decode(d, cs) for d, _n in st.writes],
-                         "nframes": sorted({n for _d, n in st.writes}),
-                         "state": st.state} for st in be.streams],
+            "streams": sts,
             "alive": [bool(th._alive_now()) for th in S.thread_objs],
             "halting": [bool(getattr(th, "halting", False)) for th in S.thread_objs],
             "terminates": be.terminates,
@@ -254,16 +386,31 @@ def run_case(c, pinned=False):
         })
 
     S.on_end = capture
-    outcome = S.run(main)
+    strategy = c.get("strategy", "struct")
+    saved_default = mod.chunks.default
+    if strategy != "struct":
+        mod.chunks.default = getattr(mod.chunks, strategy)
+    try:
+        outcome = S.run(main)
+    finally:
+        mod.chunks.default = saved_default
     io = ctx["io"]
     if "log" not in obs:
         capture()
+    crashes = [[r.tid, r.crash] for r in S.recs if r is not None and r.crash]
+    # a player whose iterable was made to raise dies on that exception: expected, listed apart
+    fails = {k + 1 for k, st in enumerate(obs["streams"]) if st["fail"]}
     obs.update({
         "outcome": outcome,
         "steps": ["%d|%s" % (ch, pend_str(p)) for ch, p in S.trace if ch is not None],
         "final": pend_str(S.trace[-1][1]) if S.trace and S.trace[-1][0] is None else "",
         "chosen": list(S.chosen),
-        "crashes": [[r.tid, r.crash] for r in S.recs if r is not None and r.crash],
+        # label of the operation executed at each step; at a context switch also what the thread
+        # switched away from had pending ("label:enabled", "" when it had finished)
+        "own": [next((l for t, l, _e in p if t == ch), "") for ch, p in S.trace if ch is not None],
+        "left": _left_behind(S.trace),
+        "crashes": [x for x in crashes if not (x[0] in fails and FAIL_MSG in x[1])],
+        "died": sorted(x[0] - 1 for x in crashes if x[0] in fails and FAIL_MSG in x[1]),
         "hook_errors": S.hook_errors[:3],
     })
     if io is not None:
@@ -285,22 +432,57 @@ def variant():
     return _variant
 
 
+def die_variant():
+    """What does `AudioThread.run` do when the played iterable raises?  Probed from the behaviour:
+    "as-coded" = the exception leaves `run` at once (no epilogue: the device stream stays open, the
+    thread stays in `_threads`); "fixed" = the epilogue still runs (`try … finally`,
+    proposed_fixes/D21-player-dies-close-spins.diff): the next operation of the thread is the
+    acquisition of its own lock."""
+    global _die_variant
+    if _die_variant is None:
+        o = run_case({"entry": "fine", "script": [["play", 1, {"fail": True}], ["join", 0]], "wait": False, "cs": 2,
+                      "schedule": []})
+        mine = [p.split(":")[1] for s in o["steps"] if s.startswith("1|")
+                for p in s.split("|")[1].split(",") if p.startswith("1:")]
+        _die_variant = "fixed" if "tlock0.acq" in mine else "as-coded"
+    return _die_variant
+
+
 # ------------------------------------------------------------------------------------------
 # case generation: bounded pre-emption enumeration on the real code
 # ------------------------------------------------------------------------------------------
 def key(c):
-    return common.json.dumps([c["script"], c["wait"], c["cs"], bool(c.get("with")), c.get("schedule", [])])
+    k = [c["script"], c["wait"], c["cs"], bool(c.get("with")), c.get("schedule", [])]
+    if is_fine(c):
+        k += ["fine", c.get("strategy", "struct"), c.get("sources", [])]
+    return common.json.dumps(k)
 
 
 def _case(cfg, chosen):
     c = dict(cfg)
-    c["entry"] = "sched"
+    c.setdefault("entry", "sched")
     c["schedule"] = list(chosen)
     return c
 
 
-def explore(cfg, bound, cap):
-    """All schedules of cfg with at most `bound` pre-emptions (at most `cap` of them)."""
+def _own_label(step, tid):
+    """pending operation of thread `tid` in a step record `chosen|tid:label:enabled,…`"""
+    for p in step.split("|")[1].split(","):
+        q = p.split(":")
+        if int(q[0]) == tid:
+            return q[1]
+    return None
+
+
+def in_assembly(label):
+    """pre-emption points of the fine-grained families: the thread switched away from is asking
+    its iterable for a sample or is about to write the chunk it has assembled"""
+    return label is not None and (label.endswith(".pull") or label.endswith(".write"))
+
+
+def explore(cfg, bound, cap, pre_ok=None):
+    """All schedules of cfg with at most `bound` pre-emptions (at most `cap` of them).  With
+    `pre_ok`, a pre-emption is only taken where pre_ok(pending label of the pre-empted thread)."""
     out = []
     stack = [([], bound)]
     runaway = 0
@@ -326,6 +508,8 @@ def explore(cfg, bound, cap):
                 if a == chosen[i]:
                     continue
                 cost = 1 if (prev in en and a != prev) else 0
+                if cost and pre_ok is not None and not pre_ok(_own_label(o["steps"][i], prev)):
+                    continue
                 if left - cost >= 0:
                     stack.append((chosen[:i] + [a], left - cost))
     return out
@@ -391,6 +575,114 @@ HISTORIES_3 = [
 ]
 
 
+# fine-grained families: (name, play calls, rest of the script, sources).  Default chunk size 2.
+def _src(how, g=0):
+    return {"src": [how, g]}
+
+
+FINE_FAMILIES = [
+    # two players alive at once with the same chunk size and format (one key for anything pooled by it)
+    ("2p-same-key", [["play", 3], ["play", 3]], [["close"]], []),
+    ("2p-same-key-uneven", [["play", 5], ["play", 1]], [["close"]], []),
+    # different chunk sizes, different formats (integer formats cannot take the float zero padding:
+    # lengths are multiples of the chunk size there)
+    ("2p-diff-size", [["play", 3], ["play", 4, {"cs": 3}]], [["close"]], []),
+    ("2p-diff-fmt", [["play", 2], ["play", 4, {"dfmt": "i"}]], [["close"]], []),
+    ("2p-diff-fmt-h", [["play", 4, {"dfmt": "h"}], ["play", 3]], [["close"]], []),
+    # control calls while both assemble chunks
+    ("2p-ctl", [["play", 3], ["play", 4]], [["pause", 0], ["resume", 0], ["stop", 1], ["close"]], []),
+    ("2p-join", [["play", 2], ["play", 3]], [["join", 0], ["close"]], []),
+    # iterables that are shared or related
+    ("shared-list", [["play", 3, _src("list")], ["play", 3, _src("list")]], [["close"]], [3]),
+    ("shared-list-diff-size", [["play", 3, _src("list")], ["play", 3, dict(_src("list"), cs=3)]], [["close"]], [3]),
+    ("tee-copies", [["play", 3, _src("tee")], ["play", 3, _src("tee")]], [["close"]], [3]),
+    ("thub-copies", [["play", 3, _src("thub")], ["play", 3, _src("thub")]], [["close"]], [3]),
+    # an iterable that raises half-way: the player thread dies
+    ("raises-1p", [["play", 3, {"fail": True}]], [["close"]], []),
+    ("raises-2p", [["play", 1, {"fail": True}], ["play", 3]], [["close"]], []),
+    ("raises-join", [["play", 2, {"fail": True}]], [["join", 0], ["close"]], []),
+]
+FINE_FAMILIES_3 = [
+    ("3p-same-key", [["play", 2], ["play", 3], ["play", 1]], [["close"]], []),
+    ("3p-mixed", [["play", 2], ["play", 3, {"cs": 3}], ["play", 2, {"dfmt": "i"}]], [["close"]], []),
+]
+STRATEGIES = ("struct", "array")
+# thorough tier: families explored with <= 2 pre-emptions ANYWHERE (the others: <= 1 anywhere)
+THOROUGH_ANYWHERE = ("2p-same-key", "2p-diff-size", "2p-ctl", "shared-list", "thub-copies")
+
+
+def fine_cfg(plays, tail, sources, wait, strategy, cs=2):
+    return {"entry": "fine", "script": [list(x) for x in plays] + [list(x) for x in tail], "wait": wait, "cs": cs,
+            "with": False, "strategy": strategy, "sources": list(sources)}
+
+
+def random_fine_cfg(rng):
+    """2–3 players, random lengths / chunk sizes / formats / sources, optional control calls"""
+    cs = rng.choice([1, 2, 2, 3])
+    nplayers = rng.choice([2, 2, 2, 3])
+    sources = [rng.randint(1, 5)] if rng.random() < 0.3 else []
+    how = rng.choice(["list", "tee", "thub"])
+    plays = []
+    for k in range(nplayers):
+        o = {}
+        r = rng.random()
+        own = cs
+        if r < 0.25:
+            own = o["cs"] = rng.choice([1, 2, 3, 4])
+        if sources and (k < 2 or rng.random() < 0.5):
+            o["src"] = [how, 0]
+            n = sources[0]
+        else:
+            n = rng.randint(0, 6)
+            if rng.random() < 0.2:
+                o["dfmt"] = rng.choice(["i", "h"])
+                n = own * rng.randint(0, 2)
+            elif rng.random() < 0.1:
+                o["fail"] = True
+        plays.append(["play", n, o] if o else ["play", n])
+    tail = []
+    for _ in range(rng.choice([0, 0, 1, 2])):
+        tail.append([rng.choice(["pause", "resume", "stop", "join"]), rng.randrange(nplayers)])
+    tail.append(["close"])
+    return fine_cfg(plays, tail, sources, rng.random() < 0.6, rng.choice(STRATEGIES), cs)
+
+
+def generate_fine(rng, tier, scale):
+    """Fine-grained cases: pre-emption inside chunk assembly, 2–3 players x both strategies."""
+    quick = tier == "quick"
+    cases = []
+    if scale == 1:
+        for fi, (name, plays, tail, sources) in enumerate(FINE_FAMILIES):
+            for si, strategy in enumerate(STRATEGIES):
+                for wi, wait in enumerate((True, False)):
+                    cfg = fine_cfg(plays, tail, sources, wait, strategy)
+                    if quick:
+                        # every schedule with <= 2 pre-emptions taken inside chunk assembly; with <= 1
+                        # pre-emption anywhere for one (strategy, wait) combination of each family
+                        cases += explore(cfg, 2, 120, in_assembly)
+                        if (fi + si + wi) % 4 == 0:
+                            cases += explore(cfg, 1, 120)
+                    else:
+                        cases += explore(cfg, 3, 1500, in_assembly)
+                        if name in THOROUGH_ANYWHERE:
+                            cases += explore(cfg, 2, 2500)
+                        else:
+                            cases += explore(cfg, 1, 400)
+        for fi, (name, plays, tail, sources) in enumerate(FINE_FAMILIES_3):
+            for si, strategy in enumerate(STRATEGIES):
+                for wi, wait in enumerate((True, False)):
+                    cfg = fine_cfg(plays, tail, sources, wait, strategy)
+                    if quick:
+                        if (fi + si + wi) % 2 == 0:
+                            cases += explore(cfg, 1, 150, in_assembly)
+                    else:
+                        cases += explore(cfg, 2, 2000, in_assembly)
+    for _ in range((60 if quick else 1200) * scale):
+        cfg = random_fine_cfg(rng)
+        cases += random_walks(cfg, rng, 2)
+    return cases
+
+
 def _resize(script, rng, lo, hi):
     return [[c[0], rng.randint(lo, hi)] if c[0] == "play" else list(c) for c in script]
 
@@ -434,6 +726,7 @@ def generate(rng, tier, scale=1):
             cfg = {"script": h, "wait": rng.random() < 0.5, "cs": rng.choice([1, 2, 3]),
                    "with": rng.random() < 0.2}
             cases += random_walks(cfg, rng, 2)
+        cases += generate_fine(rng, tier, scale)
     # distinct
     seen, out = set(), []
     for c in cases:
@@ -458,21 +751,34 @@ def impl(c):
     return o
 
 
+def request_for(c, chosen):
+    m = 0
+    script = []
+    fails = []
+    closed = False
+    for cmd in full_script(c):
+        if cmd[0] == "play":
+            cs, _dfmt, _src, fail = play_opts(c, cmd)
+            script.append(["play", audio_of(c, m, cmd), cs])
+            if not closed:
+                fails.append(fail)      # by player index: a play after close creates no player
+            m += 1
+        else:
+            script.append(cmd[:2])
+            closed = closed or cmd[0] == "close"
+    r = {"entry": c.get("entry", "sched"), "wait": bool(c["wait"]), "fixed": variant() == "fixed", "cs": c["cs"],
+         "script": script, "schedule": chosen}
+    if is_fine(c):
+        r.update({"fails": fails, "dieFixed": die_variant() == "fixed"})
+    return r
+
+
 def request(c):
     k = key(c)
     chosen = _chosen.pop(k, None)
     if chosen is None:
         chosen = run_case(c)["chosen"]
-    m = 0
-    script = []
-    for cmd in full_script(c):
-        if cmd[0] == "play":
-            script.append(["play", samples(m, cmd[1])])
-            m += 1
-        else:
-            script.append(cmd)
-    return {"entry": "sched", "wait": bool(c["wait"]), "fixed": variant() == "fixed", "cs": c["cs"],
-            "script": script, "schedule": chosen}
+    return request_for(c, chosen)
 
 
 def _current_cmd(c, io):
@@ -487,21 +793,19 @@ def spec_problems(c, io, drv):
     if io["outcome"] == "bad-schedule":
         return out
     want = drv["spec"]["chunks"]
-    cs = c["cs"]
-    # stream k belongs to the k-th successful play
-    plays = [e for e in io["log"] if e[0] == "play"]
-    ok_ord = [m for m, e in enumerate(plays) if e[1] == "ok"]
-    # a play call that was interrupted by the end of the run may have opened its stream already
+    # stream k belongs to the k-th play call that was not refused (run_case records its ordinal, its
+    # chunk size and its sample format; a call interrupted by the end of the run may have opened its
+    # stream already)
     for k, st in enumerate(io["streams"]):
-        m = ok_ord[k] if k < len(ok_ord) else len(plays)
-        if m >= len(want):
+        m, cs = st["m"], st["cs"]
+        if m is None or m >= len(want):
             out.append(("delivered", "stream %d has no play call" % k))
             continue
         w = st["written"]
         if w != want[m][:len(w)]:
             out.append(("delivered", "stream %d received %r, not a prefix of %r" % (k, w, want[m])))
         elif (k < len(io["alive"]) and not io["alive"][k] and not io["halting"][k] and w != want[m]
-              and io["outcome"] == "done"):
+              and io["outcome"] == "done" and not st["fail"]):
             out.append(("delivered-incomplete", "stream %d: player finished un-stopped after %d of %d chunks" % (k, len(w), len(want[m]))))
         if st["nframes"] not in ([], [cs]):
             out.append(("delivered", "stream %d: frames per write %r, chunk size %d" % (k, st["nframes"], cs)))
@@ -560,7 +864,8 @@ def model_problems(c, io, drv):
             break
     if not out and io["final"] != (m["final"] if io["outcome"] != "done" else ""):
         out.append("final pending: impl %r model %r" % (io["final"], m["final"]))
-    if io["outcome"] != m["outcome"]:
+    # a run cut by the step budget: the model must still have somebody enabled
+    if {"budget": "unfinished"}.get(io["outcome"], io["outcome"]) != m["outcome"]:
         out.append("outcome: impl %s model %s" % (io["outcome"], m["outcome"]))
     ilog = [e[:2] + ([e[2], e[3]] if len(e) > 2 else []) for e in io["log"]]
     if ilog != m["log"]:
@@ -620,6 +925,10 @@ def classify(c, io, drv):
             "T" if c["wait"] else "F", "+".join(mn), "+".join(pl))
         if not c["wait"]:
             sig += ":stop=%s" % io.get("variant")
+        dead_listed = [k for k in io.get("died", []) if k < len(io["streams"]) and io["streams"][k]["state"] != "closed"]
+        if io["outcome"] == "budget" and dead_listed:
+            # close() loops over a dead thread that is still in _threads (join returns at once)
+            sig = "close-never-returns:played-iterable-raised:dead-thread-stays-in-_threads:close-loops-for-ever"
     elif kind == "alive-after-close":
         sig = "alive-after-close:thread-left-_threads-before-close-looked"
     # a known finding only explains a run on which the (proved) model agrees step by step
@@ -643,13 +952,7 @@ def tally(eng, c, io):
     eng.count("wait", c["wait"])
     eng.count("with_block", bool(c.get("with")))
     eng.count("context_switches", min(sum(1 for a, b in zip(ch, ch[1:]) if a != b), 12))
-    ops = set()
-    for s in io.get("steps", []):
-        t = s.split("|")[0]
-        for p in s.split("|")[1].split(","):
-            if p.split(":")[0] == t:
-                lab = p.split(":")[1]
-                ops.add(lab.split(".")[-1] if "." in lab else lab)
+    ops = {lab.split(".")[-1] if "." in lab else lab for lab in io.get("own", []) if lab}
     for o in ops:
         eng.count("ops_executed", o)
     for e in io.get("log", []):
@@ -659,19 +962,68 @@ def tally(eng, c, io):
         eng.count("stream_final_state", st["state"])
     if io.get("outcome") == "deadlock":
         eng.count("deadlock_pending", io["final"])
+    eng.count("granularity", "fine (every pull is a step)" if is_fine(c) else "coarse (synchronisation + backend)")
+    if is_fine(c):
+        tally_fine(eng, c, io)
+
+
+def fill_profile(io):
+    """(switches away from a player whose chunk is partly filled and not yet written,
+        pre-emptions taken while the pre-empted player was pulling / about to write,
+        were two players' chunks partly filled at the same time?)"""
+    buf = {}
+    mid = pre = 0
+    overlap = False
+    ch = io.get("chosen", [])
+    left = io.get("left", [])
+    nfull = 0
+    for i, lab in enumerate(io.get("own", [])):
+        t = ch[i]
+        if left[i] is not None and left[i] != "":
+            prev = ch[i - 1]
+            if buf.get(prev, 0) > 0:
+                mid += 1
+            if left[i].endswith(":1") and in_assembly(left[i][:-2]):
+                pre += 1
+        if lab.endswith(".pull"):
+            if buf.get(t, 0) == 0:
+                nfull += 1
+            buf[t] = buf.get(t, 0) + 1
+        elif lab.endswith(".write"):
+            if buf.get(t, 0) > 0:
+                nfull -= 1
+            buf[t] = 0
+        if nfull >= 2:
+            overlap = True
+    return mid, pre, overlap
+
+
+def tally_fine(eng, c, io):
+    eng.count("fine.strategy", c.get("strategy", "struct"))
+    sts = io.get("streams", [])
+    eng.count("fine.players", len(sts))
+    keys = [(st["dfmt"], st["cs"]) for st in sts]
+    if len(keys) >= 2:
+        eng.count("fine.pool_key(dfmt,size)", "some players share it" if len(set(keys)) < len(keys) else "all different")
+        eng.count("fine.chunk_sizes", "equal" if len({k[1] for k in keys}) == 1 else "different")
+        eng.count("fine.formats", "equal" if len({k[0] for k in keys}) == 1 else "different")
+        eng.count("fine.audio_lengths", "equal" if len({len(audio_of(c, m, cmd)) for m, cmd in enumerate(
+            [x for x in c["script"] if x[0] == "play"])}) == 1 else "different")
+    for cmd in c["script"]:
+        if cmd[0] == "play":
+            _cs, _f, src, fail = play_opts(c, cmd)
+            eng.count("fine.played_object", "raises half-way" if fail else ("own list" if src is None else
+                      {"list": "the same list object", "tee": "Stream.copy() of one Stream", "thub": "one thub object"}[src[0]]))
+    mid, pre, overlap = fill_profile(io)
+    eng.count("fine.switches_in_mid_chunk", min(mid, 6))
+    eng.count("fine.preemptions_in_assembly", min(pre, 4))
+    eng.count("fine.two_chunks_partly_filled_at_once", overlap)
+    if io.get("died"):
+        eng.count("fine.player_died_on_exception", "%d thread(s), %s" % (len(io["died"]), io.get("outcome")))
 
 
 def _request_for(c, chosen):
-    m = 0
-    script = []
-    for cmd in full_script(c):
-        if cmd[0] == "play":
-            script.append(["play", samples(m, cmd[1])])
-            m += 1
-        else:
-            script.append(cmd)
-    return {"entry": "sched", "wait": bool(c["wait"]), "fixed": variant() == "fixed", "cs": c["cs"],
-            "script": script, "schedule": chosen, "id": ID}
+    return dict(request_for(c, chosen), id=ID)
 
 
 def _signatures(cases):
@@ -693,8 +1045,9 @@ def _signatures(cases):
 def _shrink_candidates(c):
     sc = c["script"]
     sch = c.get("schedule", [])
-    # shorter schedule (the default policy continues), fewer calls, fewer samples
-    for n in (0, len(sch) // 2, len(sch) - 1):
+    # shorter schedule (the default policy continues without pre-emption), fewer calls, fewer samples
+    cuts = {0, len(sch) // 2, len(sch) - 1} | {i for i in range(1, len(sch)) if sch[i] != sch[i - 1]}
+    for n in sorted(cuts):
         if 0 <= n < len(sch):
             yield dict(c, schedule=sch[:n])
     for i in range(len(sc)):
@@ -702,11 +1055,32 @@ def _shrink_candidates(c):
             yield dict(c, script=sc[:i] + sc[i + 1:], schedule=[])
             yield dict(c, script=sc[:i] + sc[i + 1:])
     for i, cmd in enumerate(sc):
-        if cmd[0] == "play" and cmd[1] > 0:
-            yield dict(c, script=sc[:i] + [["play", cmd[1] - 1]] + sc[i + 1:])
-            yield dict(c, script=sc[:i] + [["play", cmd[1] - 1]] + sc[i + 1:], schedule=[])
+        if cmd[0] == "play" and cmd[1] > 0 and play_opts(c, cmd)[2] is None:
+            # (an integer format cannot take the float zero padding: whole chunks only)
+            dn = 1 if play_opts(c, cmd)[1] == "f" else play_opts(c, cmd)[0]
+            if cmd[1] < dn:
+                continue
+            less = [[cmd[0], cmd[1] - dn] + list(cmd[2:])]
+            yield dict(c, script=sc[:i] + less + sc[i + 1:])
+            yield dict(c, script=sc[:i] + less + sc[i + 1:], schedule=[])
     if c.get("with"):
         yield dict(c, **{"with": False, "script": sc + [["close"]]})
+    if is_fine(c):
+        # plainer players: default chunk size / format, a list of their own, no failure
+        for i, cmd in enumerate(sc):
+            if cmd[0] == "play" and len(cmd) > 2:
+                for k in sorted(cmd[2]):
+                    if k == "cs" and cmd[2].get("dfmt") and cmd[1] % c["cs"]:
+                        continue
+                    o = {a: b for a, b in cmd[2].items() if a != k}
+                    plain = [[cmd[0], len(audio_of(c, 0, cmd)) if k == "src" else cmd[1]] + ([o] if o else [])]
+                    yield dict(c, script=sc[:i] + plain + sc[i + 1:])
+                    yield dict(c, script=sc[:i] + plain + sc[i + 1:], schedule=[])
+        for g, n in enumerate(c.get("sources", [])):
+            if n > 0:
+                yield dict(c, sources=c["sources"][:g] + [n - 1] + c["sources"][g + 1:])
+        if c.get("strategy", "struct") != "struct":
+            yield dict(c, strategy="struct")
 
 
 def shrink(c):
@@ -725,6 +1099,10 @@ def neighbours(c):
     for i in range(len(sch) - 1):
         if sch[i] != sch[i + 1]:
             yield dict(c, schedule=sch[:i] + [sch[i + 1], sch[i]] + sch[i + 2:])
+    if is_fine(c):
+        yield dict(c, strategy="array" if c.get("strategy", "struct") == "struct" else "struct")
+        if any(len(x) > 2 and x[2].get("dfmt") for x in c["script"] if x[0] == "play"):
+            return                  # an integer format needs lengths that are multiples of the chunk size
     for cs in (1, 2, 3):
         if cs != c["cs"]:
             yield dict(c, cs=cs, schedule=[])
